@@ -291,13 +291,21 @@ Lemma root_fields_ACons G i all fs c e r : root_fields md GE G i all fs (ACons c
   | ChName f => match find_field all f with
                 | Some x =>
                     guard (existsb (fun y => fst y =? o_id f) fs) (o_nid f) Other ;;;
+                    guard (negb (args_has_pos r)) (o_nid f) Conservative ;;;
                     rootg G (snd x) e ;;;
                     root_fields md GE G i all (filter (fun y => negb (fst y =? o_id f)) fs) r
                 | None => Bad (o_nid f) UnknownField
                 end
-  | ChOthers => Bad (head_nid e) Conservative
+  | ChOthers => match r with
+                | ANil => match fs with
+                          | ft :: fs' => guard (forallb (fun y => sty_eqb (snd y) (snd ft)) fs') (head_nid e) Other ;;;
+                                         rootg G (snd ft) e
+                          | [] => Bad (head_nid e) Other
+                          end
+                | _ => Bad (head_nid e) Conservative
+                end
   end.
-Proof. destruct c; reflexivity. Qed.
+Proof. destruct c; try reflexivity; destruct r; reflexivity. Qed.
 Lemma root_elems_ANil G i el n : root_elems md GE G i el n ANil =
   guard (match n with O => true | _ => false end) i Other.
 Proof. reflexivity. Qed.
@@ -797,7 +805,7 @@ Proof.
     + intros i all fs. cbn_sem. destruct c as [|f|].
       * destruct fs as [|ft fs']; [reflexivity|]. rewrite Ir', If. reflexivity.
       * destruct (find_field all f); [|reflexivity]. rewrite Ir', If. reflexivity.
-      * reflexivity.
+      * destruct r; [|reflexivity]. destruct fs as [|ft fs']; [reflexivity|]. rewrite Ir'. reflexivity.
     + intros i el n. cbn_sem. destruct c as [|f|].
       * destruct n as [|n']; [reflexivity|]. rewrite Ir', Iel. reflexivity.
       * reflexivity.
